@@ -225,6 +225,8 @@ pub struct Emitter {
     pub api_of_value: u8,
     /// when set, Reset events are not advertised as safe cut points for parallel validation
     pub no_cut: bool,
+    /// do not dissect saved files (very large archives)
+    pub light: bool,
 }
 
 impl Emitter {
@@ -232,7 +234,7 @@ impl Emitter {
         let mut metas = Interner::default();
         // token 1 = "{}" so that DefaultCfg.meta in the spec can name it... the spec uses the logged token
         metas.tok(b"{}");
-        Emitter { toks: Interner::default(), metas, files: Interner::default(), api_of_value: 0, no_cut: false }
+        Emitter { toks: Interner::default(), metas, files: Interner::default(), api_of_value: 0, no_cut: false, light: false }
     }
 
     pub fn emit(&mut self, obs: &[Obs], out: &mut Out) {
@@ -279,7 +281,12 @@ impl Emitter {
                     let mut e = json!({"ev": "Save", "api": self.api_of_value, "res": o.res});
                     if let Some(b) = &o.file {
                         e["ftok"] = json!(self.files.tok(b));
-                        e["file"] = Dissector { toks: &mut self.toks, metas: &mut self.metas }.dissect(b);
+                        if self.light {
+                            // very large archive in the quick tier: the file itself is not dissected (its re-opening is judged)
+                            e["light"] = json!(true);
+                        } else {
+                            e["file"] = Dissector { toks: &mut self.toks, metas: &mut self.metas }.dissect(b);
+                        }
                     }
                     e
                 }
